@@ -34,6 +34,80 @@ def big_spec(rng):
     base.sort(key=lambda x: -x[1])
     return {'encoding': 'utf-8', 'uuid': 'big-%08x' % rng.getrandbits(32), 'base': base, 'prince': [], 'terms': terms, 'omen': None}
 
+def huge_spec(rng):
+    """> 1 MB of guesses in pre-terminals of at most a few KB: the stream is far longer than a pipe can hold, so a generator whose stdout is not being read
+    blocks inside a write at a well-defined point, long before the end."""
+    def rows(vals, ng):
+        return rulesets.rows_grouped(rng, vals, ng, 'random')
+    d3 = ['%03d' % i for i in rng.sample(range(1000), 800)]
+    a3 = rng.sample(['cat', 'dog', 'abc', 'fox', 'sun', 'pie', 'owl', 'bee', 'ant', 'elk', 'yak', 'emu'], 10)
+    terms = {'D3': rows(d3, 40), 'A3': rows(a3, 5), 'C3': rows(['LLL', 'ULL', 'UUU'], 2), 'O1': rows(list('!@#$%.'), 3)}
+    base = [['A3D3', 0.4], ['D3O1', 0.35], ['A3O1D3', 0.25]]
+    rng.shuffle(base)
+    base.sort(key=lambda x: -x[1])
+    return {'encoding': 'utf-8', 'uuid': 'huge-%08x' % rng.getrandbits(32), 'base': base, 'prince': [], 'terms': terms, 'omen': None}
+
+# requests written to the stdin pipe while the generator is blocked on its own output; every entry ends in an explicit quit
+BLOCKED_REQUESTS = [[b'q\n'], [b'\nq\n'], [b'h\nq\n'], [b'\n\n\nq\n'], [b'\n', b'q\n'], [b'h\n\nq\n'], [b'q\nq\n'], [b'\r\nq\n'][:0] or [b'\n', b'h\n', b'q\n']]
+
+def check_blocked_quit(run, case, tier='quick'):
+    """Real process, stdout not read until the requests have been delivered: the moment of the quit is fixed by back-pressure, not by timing.  The output must be a
+    line-aligned prefix of the uninterrupted stream that ends within the pre-terminal being written when the generator blocked (+ one more), and --load supplies the rest."""
+    import random
+    rng = random.Random(case['hseed'])
+    name, path = gstream.materialise(case['spec'], 'c12h')
+    sn = session.new_session_name('c12h')
+    try:
+        pts = []
+        U = session.run_main(['-r', name, '-s', sn], max_guesses=2000000)
+        ref = ('\n'.join(U.guesses) + '\n').encode('utf-8') if U.guesses else b''
+        if len(ref) < 600000:
+            run.inconc('huge ruleset too small'); return
+        # size of the largest pre-terminal in bytes, from the recorded POP/GUESS events
+        starts = [p_['first_guess'] for p_ in U.pops] + [len(U.guesses)]
+        sizes = [sum(len(g.encode('utf-8')) + 1 for g in U.guesses[a:b]) for a, b in zip(starts, starts[1:])] or [0]
+        maxpt = max(sizes)
+        reqs = BLOCKED_REQUESTS if tier == 'thorough' else rng.sample(BLOCKED_REQUESTS, 3)
+        for i, chunks in enumerate(reqs):
+            verdicts = []
+            for attempt, settle in enumerate([1.0, 3.0, 8.0]):
+                s2 = f'{sn}b{i}_{attempt}'
+                out, err, rc, to, info = cli.run_cli_blocked('pcfg_guesser.py', ['-r', name, '-s', s2], chunks, settle=settle)
+                run.ev('cli_runs'); run.ev('blocked_cli_runs')
+                if to or not info['blocked'] or not info['stdin_consumed']:
+                    verdicts.append(('inconclusive', f'watchdog/blocked={info["blocked"]}/consumed={info["stdin_consumed"]}')); break
+                if not ref.startswith(out) or (out and not out.endswith(b'\n')):
+                    run.violation(f'requests {chunks} written while the generator was blocked on its output: stdout is not a line-aligned prefix of the uninterrupted stream',
+                                  case, observed=out[-120:].decode('utf-8', 'replace')); return
+                bound = info['fill'] + 2 * 8192 + 2 * maxpt + 4096
+                if len(out) > bound:
+                    # a slow helper thread is not a defect: ask again with a longer settling time; a lost request fails every time
+                    verdicts.append(('late', f'{len(out)} bytes written, the generator was blocked at about {info["fill"]} (largest pre-terminal {maxpt} bytes, whole stream {len(ref)}), settle {settle}s'))
+                    continue
+                verdicts.append(('ok', len(out)))
+                out2, err2, rc2, to2 = cli.run_cli('pcfg_guesser.py', ['-r', name, '-s', s2, '--load'], stdin_mode='open')
+                run.ev('cli_runs'); run.ev('cli_resumes')
+                if not to2:
+                    lost = Counter(ref.split(b'\n')) - (Counter(out.split(b'\n')) + Counter(out2.split(b'\n')))
+                    if lost:
+                        run.violation(f'requests {chunks} while blocked + --load lost {sum(lost.values())} guesses', case, observed=[x.decode('utf-8', 'replace') for x in list(lost)[:5]]); return
+                break
+            kinds = [v[0] for v in verdicts]
+            if kinds and all(k == 'late' for k in kinds) and len(kinds) == 3:
+                run.violation(f'an explicit quit written to stdin as {chunks} while the generator was blocked on its output was not honoured: ' + verdicts[-1][1], case,
+                              observed=[v[1] for v in verdicts]); return
+            if 'inconclusive' in kinds:
+                run.inconc('blocked-quit: ' + verdicts[-1][1]); continue
+            run.ev('blocked_quits_honoured')
+            run.add_to_set('blocked_request_shapes', repr(chunks))
+            run.case(h(['blocked', case['spec']['uuid'], repr(chunks)]))
+        run.sample({'cli': 'pcfg_guesser.py (stdout back-pressure)', 'stream_bytes': len(ref), 'largest_preterminal_bytes': maxpt, 'requests': [repr(c) for c in reqs]})
+    finally:
+        for f in os.listdir(repo.scratch()):
+            if f.startswith(sn) and f.endswith(('.sav', '.omn')):
+                os.remove(os.path.join(repo.scratch(), f))
+        repo.drop_rules(name)
+
 AGES = [None, None, 59, 3600, 86399, 86400, 172799, 172800, 200000, 10 ** 7, 10 ** 10]
 
 def check_noquit(run, case, name, sn, U, I, steps, label, age=None):
@@ -316,7 +390,7 @@ def check_stdin(run, case):
         repo.drop_rules(name)
 
 def run(run, rng):
-    run.required_events = ['scheduled_runs', 'quit_runs', 'resumes', 'cli_runs', 'quit_inside_markov_level', 'scheduled_resumed_runs', 'quit_promptness_checked', 'aged_session_runs']
+    run.required_events = ['scheduled_runs', 'quit_runs', 'resumes', 'cli_runs', 'quit_inside_markov_level', 'scheduled_resumed_runs', 'quit_promptness_checked', 'aged_session_runs', 'blocked_quits_honoured']
     run.min_distinct = 30
     run.assumptions = ['yield points = statement boundaries (LINE events) of run/_save_session/omen_generate_guesses/_recursive_guesses/restore_omen in the generation '
                        'thread and of keypress/print_status/get_status in the helper thread; preemption inside a single statement is not modelled',
@@ -330,10 +404,14 @@ def run(run, rng):
         for i in range(nbig):
             case = {'spec': big_spec(rng), 'hseed': 0, 'big': True}
             run.guard(case, check_stdin, seconds=600)
+    if run.shard[0] == (0 if run.tier == 'quick' else run.shard[0]) and run.shard[0] < 4:
+        run.guard({'spec': huge_spec(rng), 'hseed': rng.getrandbits(32), 'huge': True}, check_blocked_quit, run.tier, seconds=900)
 
 def replay(run, case):
     c = case['case']
-    if c.get('big'):
+    if c.get('huge'):
+        check_blocked_quit(run, c, 'thorough')
+    elif c.get('big'):
         check_stdin(run, c)
     else:
         check_case(run, c, 'thorough')
